@@ -425,7 +425,9 @@ impl ConvMon {
     }
 
     fn breach(&mut self, s: String) {
-        if self.report.breaches.len() < 8 {
+        // (the breaches that disqualify an execution for C01-C03 are always kept)
+        let premise = s.starts_with("sp-not-restored") || s.starts_with("saved-not-restored") || s.starts_with("ret-to-wrong") || s.starts_with("stack-access-outside");
+        if self.report.breaches.len() < 8 || (premise && self.report.breaches.len() < 64) {
             self.report.breaches.push(s);
         }
     }
